@@ -53,7 +53,19 @@ def opMsm (a : Args) : Except String String := do
     s!"or={showFloat od.1} vor={showFloat od.2} m1={showFloat (armMean rows true)} m0={showFloat (armMean rows false)} " ++
     s!"v1={showFloat (armVar rows true)} v0={showFloat (armVar rows false)}")
 
+/-- `icrr which=doc|aipw|xfit m1= m0= r1= r0= q1= q0= n=`: variance / n of the per-row log-RR influence values -/
+def opIcRR (a : Args) : Except String String := do
+  let which ← need a "which" some
+  let f ← match which with
+    | "doc" => pure (icLogRRDoc (F := Float))
+    | "aipw" => pure (icLogRRAipw (F := Float))
+    | "xfit" => pure (icLogRRXfit (F := Float))
+    | _ => throw ("unknown-which:" ++ which)
+  let ic := icRows f (← fl a "m1") (← fl a "m0") (← fls a "r1") (← fls a "r0") (← fls a "q1") (← fls a "q0")
+  pure s!"ok var={showFloat (icSe2 ic (← need a "n" parseNat))} k={ic.length}"
+
 def opsC06 : OpTable :=
-  [("ci", opCi), ("zof", opZof), ("icse", opIcSe), ("aipwdiff", opAipwDiff), ("pool", opPool), ("msm", opMsm)]
+  [("ci", opCi), ("zof", opZof), ("icse", opIcSe), ("aipwdiff", opAipwDiff), ("pool", opPool), ("msm", opMsm),
+   ("icrr", opIcRR)]
 
 end ZVD
